@@ -450,14 +450,12 @@ fn dechunk(b: &[u8]) -> (Vec<u8>, bool, usize, Option<String>) {
         };
         let data = pos + le + 2;
         if size == 0 {
-            // no trailers expected
-            if b.len() >= data + 2 {
-                if &b[data..data + 2] == b"\r\n" {
-                    return (out, true, data + 2, None);
-                }
-                return (out, false, pos, Some("trailer after last chunk".into()));
+            // the last-chunk line says "the body is complete" (no trailers are ever sent
+            // here: anything but CRLF after it counts as extra bytes of another message)
+            if b.len() >= data + 2 && &b[data..data + 2] == b"\r\n" {
+                return (out, true, data + 2, None);
             }
-            return (out, false, pos, None);
+            return (out, true, data, None);
         }
         if b.len() < data + size + 2 {
             out.extend_from_slice(&b[data.min(b.len())..b.len().min(data + size)]);
@@ -575,21 +573,23 @@ fn known_defect(r: &Req, kind: &str, o: &Obs) -> Option<&'static str> {
     if r.shape == "cl" && r.conn == "close" && cut_partial
         && matches!(kind, "corrupt" | "abort-corrupt" | "truncated-as-complete" | "truncated-open")
     {
-        return Some("F24-short-length-body-ended-by-eof-then-408");
+        return Some("eof-completes-short-length-body-then-408");
     }
     if r.shape == "uc" && r.conn == "close" && kind == "corrupt" {
-        return Some("F25-close-delimited-body-kept-open-then-408");
+        return Some("close-delimited-body-kept-open-then-408");
     }
     if r.conn == "ka" && (cut_partial || (r.shape == "uc" && r.cut == "full")) && kind == "none" {
-        return Some("F26-unflushed-response-dropped-silent-close");
+        return Some("unflushed-response-dropped-silent-close");
     }
     // same defect, several buffers: the part still unwritten is dropped, and the client of a
     // close-delimited body takes the close for its end
     if r.conn == "ka" && r.shape == "uc" && r.cut == "full" && r.big && kind == "relayed-prefix" {
-        return Some("F26-unflushed-response-dropped-silent-close");
+        return Some("unflushed-response-dropped-silent-close");
     }
-    if r.shape == "chunked" && r.conn == "close" && cut_partial && kind == "abort" && o.malformed.is_some() {
-        return Some("F27-default-answer-written-into-started-response");
+    if r.shape == "chunked" && r.conn == "close" && cut_partial && kind == "abort"
+        && o.malformed.as_deref().map(|m| m.starts_with("chunk size") || m.starts_with("no CRLF after chunk data")).unwrap_or(false)
+    {
+        return Some("default-answer-written-into-started-response");
     }
     None
 }
